@@ -421,9 +421,12 @@ archive_compressor_compress_close(struct archive_write_filter *f)
 	struct private_data *state = (struct private_data *)f->data;
 	int ret;
 
-	ret = output_code(f, state->cur_code);
-	if (ret != ARCHIVE_OK)
-		return ret;
+	/* cur_code is only meaningful once a byte has been read. */
+	if (state->in_count > 0) {
+		ret = output_code(f, state->cur_code);
+		if (ret != ARCHIVE_OK)
+			return ret;
+	}
 	ret = output_flush(f);
 	if (ret != ARCHIVE_OK)
 		return ret;
